@@ -228,6 +228,7 @@ func (w *worker) run(name string) (res *HarnessResult) {
 			e.pushFrame(st, initFn, nil, nil, nil)
 			e.runPathInit(st)
 		}
+		st.log = nil // calls made by package initialisers are not part of the harness' call log
 	})
 	return
 }
